@@ -200,6 +200,9 @@ struct VirtualSocket<T, Env> {
 
     #[cfg(feature = "per-connection-metrics")]
     metrics: crate::metrics::PerConnectionMetrics,
+
+    #[cfg(librqbit_utp_verif)]
+    verif_key: crate::verif::ConnKey,
 }
 
 // Updated on every poll
@@ -1565,6 +1568,11 @@ impl<T: Transport, Env: UtpEnvironment> VirtualSocket<T, Env> {
 
 impl<T, E> Drop for VirtualSocket<T, E> {
     fn drop(&mut self) {
+        #[cfg(librqbit_utp_verif)]
+        {
+            let key = self.verif_key;
+            crate::verif::emit(|| crate::verif::ProbeEvent::ConnDropped(key));
+        }
         METRICS.live_virtual_sockets.decrement(1);
         self.user_tx.mark_vsock_closed();
         self.user_rx.mark_vsock_closed();
@@ -1704,6 +1712,18 @@ impl<T: Transport, E: UtpEnvironment> UtpStreamStarter<T, E> {
         let env = socket.env.copy();
         let now = env.now();
 
+        #[cfg(librqbit_utp_verif)]
+        let verif_key = crate::verif::ConnKey {
+            local: socket.bind_addr(),
+            remote,
+            conn_id_send: conn_id_send.0,
+        };
+        #[cfg(librqbit_utp_verif)]
+        {
+            crate::verif::set_current(Some(verif_key));
+            crate::verif::emit(|| crate::verif::ProbeEvent::ConnCreated(verif_key));
+        }
+
         let cancellation_token = socket.cancellation_token.child_token();
 
         let vsock = VirtualSocket {
@@ -1713,6 +1733,13 @@ impl<T: Transport, E: UtpEnvironment> UtpStreamStarter<T, E> {
             socket_opts: socket.opts().clone(),
             congestion_controller: {
                 let mut ctrl = socket.opts().congestion.create(now, ss.mss() as usize);
+                #[cfg(librqbit_utp_verif)]
+                #[allow(unused_mut)]
+                let mut ctrl: Box<dyn CongestionController> =
+                    Box::new(crate::verif::ObservedController {
+                        inner: ctrl,
+                        key: verif_key,
+                    });
                 ctrl.set_remote_window(remote_window as usize);
                 ctrl
             },
@@ -1782,9 +1809,13 @@ impl<T: Transport, E: UtpEnvironment> UtpStreamStarter<T, E> {
             recovery: Recovery::default(),
             #[cfg(feature = "per-connection-metrics")]
             metrics: crate::metrics::PerConnectionMetrics::new(socket.bind_addr(), remote),
+            #[cfg(librqbit_utp_verif)]
+            verif_key,
         };
 
         METRICS.live_virtual_sockets.increment(1);
+        #[cfg(librqbit_utp_verif)]
+        crate::verif::set_current(None);
 
         let stream = UtpStream::new(read_half, write_half, vsock.remote);
         UtpStreamStarter {
@@ -1914,7 +1945,84 @@ impl Timers {
 impl<T: Transport, Env: UtpEnvironment> std::future::Future for VirtualSocket<T, Env> {
     type Output = crate::Result<()>;
 
+    #[cfg_attr(librqbit_utp_verif, allow(unreachable_code))]
     fn poll(self: std::pin::Pin<&mut Self>, cx: &mut std::task::Context<'_>) -> Poll<Self::Output> {
+        #[cfg(librqbit_utp_verif)]
+        return self.get_mut().verif_poll(cx);
         self.get_mut().poll(cx)
+    }
+}
+
+#[cfg(librqbit_utp_verif)]
+impl<T: Transport, Env: UtpEnvironment> VirtualSocket<T, Env> {
+    fn verif_key(&self) -> crate::verif::ConnKey {
+        self.verif_key
+    }
+
+    fn verif_poll(&mut self, cx: &mut std::task::Context<'_>) -> Poll<crate::Result<()>> {
+        if !crate::verif::observer_installed() {
+            return self.poll(cx);
+        }
+        crate::verif::set_current(Some(self.verif_key()));
+        let res = self.poll(cx);
+        crate::verif::set_current(None);
+        let snap = self.verif_snapshot(&res);
+        crate::verif::emit(|| crate::verif::ProbeEvent::ConnPoll(Box::new(snap)));
+        res
+    }
+
+    fn verif_snapshot(&self, res: &Poll<crate::Result<()>>) -> crate::verif::ConnSnapshot {
+        let now = self.this_poll.now;
+        let rel = |t: Option<Instant>| t.map(|t| t.saturating_duration_since(now));
+        let (tx_ring_len, tx_ring_cap) = {
+            let c = self.user_tx.consumer.lock();
+            (c.occupied_len(), c.capacity().get())
+        };
+        let (finished, finished_bug) = match res {
+            Poll::Pending => (None, false),
+            Poll::Ready(Ok(())) => (Some(None), false),
+            Poll::Ready(Err(e)) => {
+                let s = format!("{e:#}");
+                let bug = s.starts_with("bug");
+                (Some(Some(s)), bug)
+            }
+        };
+        crate::verif::ConnSnapshot {
+            key: self.verif_key(),
+            state: self.state.name(),
+            seq_nr: self.seq_nr.0,
+            last_sent_seq_nr: self.last_sent_seq_nr.0,
+            last_consumed_remote_seq_nr: self.last_consumed_remote_seq_nr.0,
+            last_sent_ack_nr: self.last_sent_ack_nr.0,
+            last_remote_window: self.last_remote_window,
+            last_sent_window: self.last_sent_window,
+            rto_retransmissions: self.rto_retransmissions,
+            recovering: self.recovery.is_recovering(),
+            t_retransmit: rel(self.timers.retransmit.poll_at()),
+            t_inactivity: rel(self.timers.remote_inactivity_timer.poll_at()),
+            t_ack_delay: rel(self.timers.ack_delay_timer.poll_at()),
+            t_syn_ack: rel(self.timers.syn_ack_resend.poll_at()),
+            mss: self.segment_sizes.mss(),
+            max_ss: self.segment_sizes.max_ss(),
+            tx_ring_len,
+            tx_ring_cap,
+            segmented_bytes: self.user_tx_segments.total_len_bytes(),
+            segmented_packets: self.user_tx_segments.total_len_packets(),
+            flight_size: self
+                .user_tx_segments
+                .calc_flight_size(self.last_sent_seq_nr),
+            unsegmented: self.this_poll.unsegmented_data,
+            rx_window: self.rx_window(),
+            rx_ooq_bytes: self.user_rx.verif_ooq_bytes(),
+            rx_queue_bytes: self.user_rx.verif_queue_bytes(),
+            cc_window: self.congestion_controller.window(),
+            rto: self.rtte.retransmission_timeout(),
+            transport_pending: self.this_poll.transport_pending,
+            writer_dropped: self.user_tx.is_writer_dropped(),
+            writer_shutdown: self.user_tx.is_writer_shutdown(),
+            reader_dropped: self.user_rx.is_reader_dropped(),
+            finished,
+            finished_bug,
+        }
     }
 }
